@@ -1363,7 +1363,10 @@ class CallMixin:
 
     def chan_invariant(self, et):
         """Spec function zzChanInv_<ElemType>(v) of the element type's package, if the contract file declares one."""
-        nm = et.name() if et.k == "named" else None
+        base = et
+        if base.k == "ptr":
+            base = base.elem()   # chan *T: the invariant function zzChanInv_T takes the pointer
+        nm = base.name() if base.k == "named" else None
         if not nm or "." not in nm:
             return None
         pk, short = nm.rsplit(".", 1)
